@@ -25,6 +25,7 @@ import c12_eps as E
 from c12_util import LAYOUT_CODE, LAYOUTS, is_store_path, poison_returned, returned_arrays, walk
 
 CONFIG = {
+    "source_ties": "Since round 8 also tied statically: harness/py2v_validate.py translates the conversions of validate_batch / validate_single into the alias IR on every run; Refine/ValidateRefine.v proves them observationally equal to the model's programs on every abstract state.",
     "cone": ["Base/ListUtil.v", "Model/Store.v", "Proofs/StoreProofs.v", "Model/Alias.v", "Proofs/AliasSound.v", "Proofs/AliasOut.v", "Proofs/AliasEnumA.v",
              "Proofs/AliasEnumB.v", "Proofs/AliasEnumC.v", "Proofs/AliasEnumD.v", "Proofs/AliasProofs.v", "Properties/C12.v",
              "Model/ValidateIR.v", "Generated/ValidateGen.v", "Refine/ValidateRefine.v"],
